@@ -266,7 +266,7 @@ var compare = ev.Register(&ev.P[pairCase]{
 
 var hourStep = ev.Register(&ev.P[stepCase]{
 	Name: "hour_step",
-	Rule: "generated date-time, hour count n of both signs; oracle: NextHour(n) == the instant + 3600 n seconds by R-civil; the receiver is unchanged by stepping (asked again with 0, ±1 and small steps, then read back); non-trivial: crosses a day boundary backwards, or 1582-10",
+	Rule: "generated date-time, hour count n of both signs and any size that stays within years 2..9997 (up to ±87 million hours); oracle: NextHour(n) == the instant + 3600 n seconds by R-civil; the receiver is unchanged by stepping (asked again with 0, ±1 and small steps, then read back); non-trivial: crosses a day boundary backwards, or 1582-10",
 	Check: func(c stepCase) error {
 		t := c.T
 		want := ref.FromSec(t.Sec() + int64(c.N)*3600)
@@ -306,9 +306,12 @@ var hourStep = ev.Register(&ev.P[stepCase]{
 		if c.N%24 == 0 {
 			ls = append(ls, "wholeDays")
 		}
+		if c.N > 3000000 || c.N < -3000000 {
+			ls = append(ls, "over3MillionHours")
+		}
 		return ls, nt
 	},
-	Require: []string{"backAcrossDay", "seam1582"},
+	Require: []string{"backAcrossDay", "seam1582", "over3MillionHours"},
 })
 
 var monthStep = ev.Register(&ev.P[stepCase]{
@@ -689,7 +692,11 @@ func TestC04(t *testing.T) {
 		return jdCase{d, us}
 	})
 	dayStep.Rapid(ev.Share(ev.Pick(20000, 400000)), func(t *rapid.T) stepCase {
-		return stepCase{genSeamOrAny(t), gen.Step(t, 200000), gen.Step(t, 2000)}
+		d, n := genSeamOrAny(t), gen.Step(t, 200000)
+		if rapid.IntRange(0, 4).Draw(t, "wholeRange") == 0 { // any step that stays in range (up to +-3.65 million days)
+			n = rapid.IntRange(ref.JDN(2, 1, 1), ref.JDN(9997, 12, 31)).Draw(t, "targetDay") - ref.JDN(d.Y, d.M, d.D)
+		}
+		return stepCase{d, n, gen.Step(t, 2000)}
 	})
 	compare.Rapid(ev.Share(ev.Pick(20000, 400000)), func(t *rapid.T) pairCase {
 		a := genSeamOrAny(t)
@@ -712,10 +719,16 @@ func TestC04(t *testing.T) {
 	})
 	hourStep.Rapid(ev.Share(ev.Pick(20000, 400000)), func(t *rapid.T) stepCase {
 		n := gen.Step(t, 100000)
-		if rapid.Bool().Draw(t, "small") {
+		d := genSeamOrAny(t)
+		switch rapid.IntRange(0, 3).Draw(t, "size") {
+		case 0, 1:
 			n = rapid.IntRange(-50, 50).Draw(t, "hours")
+		case 2: // any step that stays in range: up to +-87 million hours (the whole 9 998 years)
+			lo, hi := (ref.DT{Y: 2, M: 1, D: 1}).Sec(), (ref.DT{Y: 9997, M: 12, D: 31}).Sec()
+			target := lo + rapid.Int64Range(0, (hi-lo)/3600).Draw(t, "targetHour")*3600
+			n = int((target - d.Sec()) / 3600)
 		}
-		return stepCase{T: genSeamOrAny(t), N: n}
+		return stepCase{T: d, N: n}
 	})
 	monthStep.Rapid(ev.Share(ev.Pick(20000, 400000)), func(t *rapid.T) stepCase {
 		d := genSeamOrAny(t)
@@ -724,6 +737,11 @@ func TestC04(t *testing.T) {
 		}
 		n := gen.Step(t, 1200)
 		m := gen.Step(t, 100)
+		if rapid.IntRange(0, 4).Draw(t, "wholeRange") == 0 { // any step that stays in range (up to +-120 000 months / 9 995 years)
+			ty := rapid.IntRange(2, 9997).Draw(t, "targetYear")
+			n = ty*12 + rapid.IntRange(1, 12).Draw(t, "targetMonth") - (d.Y*12 + d.M)
+			m = ty - d.Y
+		}
 		if rapid.IntRange(0, 5).Draw(t, "aim1582") == 0 { // aim at 1582-10
 			n = (1582*12 + 9) - (d.Y*12 + d.M - 1)
 			m = 1582 - d.Y
